@@ -1,3 +1,4 @@
+import JxlModel.Model.NaturalOrder
 import JxlModel.Driver.Common
 import JxlModel.Model.TaskStages
 /-! Line protocol for C07.
@@ -55,6 +56,14 @@ def run (ws : List String) : String :=
     match w.toNat?, h.toNat?, gh.toNat?, seed.toNat? with
     | some w, some h, some gh, some seed => sched w h gh seed
     | _, _, _, _ => "bad-op"
+  -- natorder IDX.. : length and hash of the natural-order table of every index, in the order asked
+  | "natorder" :: idxs =>
+    match idxs.mapM String.toNat? with
+    | some is =>
+      "ok " ++ " ".intercalate (is.map fun i =>
+        let t := Jxl.NaturalOrder.table i
+        s!"{i}={t.length}:{(Jxl.NaturalOrder.fnv t).toNat}")
+    | none => "bad-op"
   | _ => "bad-op"
 
 def main : IO Unit := runLoop () fun _ ws => ((), run ws)
